@@ -151,14 +151,10 @@ type Observer struct {
 	Terms            map[configapi.MastershipTerm]bool
 	StatusWithoutCfg []string // AtomicStatusChange failures (kept for trigger predicates)
 
-	// Tolerate lists finding ids whose trigger the run function accepts (the
-	// finding is listed): see tolerated().
-	Tolerate map[string]bool
-	Hits     map[string]string
 }
 
 func newObserver(w *World) *Observer {
-	return &Observer{w: w, Terms: map[configapi.MastershipTerm]bool{}, Tolerate: map[string]bool{}, Hits: map[string]string{}}
+	return &Observer{w: w, Terms: map[configapi.MastershipTerm]bool{}}
 }
 
 func (o *Observer) snapshot() Snap {
@@ -809,30 +805,8 @@ func (o *Observer) checkConsistency(cur Snap, final bool) {
 }
 
 func (o *Observer) consistencyFail(side string, rev int, path, want, got string, cur Snap) {
-	if id := o.tolerated(side, rev, path, cur); id != "" {
-		return
-	}
 	o.fail("Consistency violated: configuration.%s.revision = %d but %s.values[%s] = %s, transaction %d wrote %s; state %s",
 		side, rev, side, path, got, rev, want, o.w.DescribeState())
-}
-
-// tolerated matches a Consistency failure against the trigger predicates of
-// listed findings (Tolerate is filled by the run function from vstat.IsKnown).
-func (o *Observer) tolerated(side string, rev int, path string, cur Snap) string {
-	// F-v3-applied-aliases-committed: the store keeps applied and committed
-	// values in ONE Atomix map, so Get overlays the committed values with
-	// whatever was last applied. Trigger: the committed value of the path is
-	// wrong and equals what the applied map holds for it (or the path is
-	// missing from both).
-	if side == "committed" && o.Tolerate["F-v3-applied-aliases-committed"] {
-		cv, cok := cur.Cfg.Committed.Values[path]
-		av, aok := cur.Cfg.Applied.Values[path]
-		if cok == aok && (!cok || (pvEqual(cv, av) && cv.Index == av.Index)) {
-			o.Hits["F-v3-applied-aliases-committed"] = fmt.Sprintf("committed.values[%s] shows the applied value %s while revision %d wrote another one", path, pvString(cv, cok), rev)
-			return "F-v3-applied-aliases-committed"
-		}
-	}
-	return ""
 }
 
 func sortedPaths(m map[string]configapi.PathValue) []string {
